@@ -10,7 +10,7 @@ TRUSTED_COMMON = [
 ]
 
 HOOK_COMMITS = []
-NOT_READY = {"C11", "C15"}   # Props present but suites not yet registered in cmd/vh
+NOT_READY = set()   # Props present but suites not yet registered in cmd/vh
 HOOK_PROPS = set()   # properties with hook-based suites in harness/cmd/vhk
 NOTES = "All checks: bin/check <id>. Level proof = Coq theorems about hand-written Gallina models + regenerated tables/facts, tied to /repo by a correspondence run on every check; an implementation-side oracle searches for failing inputs. See DESIGN.md."
 
